@@ -130,26 +130,103 @@ func EdgeDominates(b *ssa.BasicBlock, i int, t *ssa.BasicBlock) bool {
 	return true
 }
 
-// Edge is a CFG edge identified by its source block and successor index.
+// Edge is a conditional CFG edge identified by its source block and successor index.  A synthetic edge
+// stands for an atomic condition implied by a real edge whose condition is a materialised `a && b` /
+// `a || b` (a φ of booleans, the form go/ssa gives to the cases of a tag-less switch): If() then returns
+// an If carrying the atom, and Succ is 0 when the atom is known true, 1 when known false.
 type Edge struct {
-	From *ssa.BasicBlock
-	Succ int
+	From  *ssa.BasicBlock
+	Succ  int
+	synth *ssa.If
 }
 
-// GuardingEdges returns all conditional edges that dominate block t (innermost last).
+// If returns the (real or synthetic) conditional the edge belongs to.
+func (e Edge) If() *ssa.If {
+	if e.synth != nil {
+		return e.synth
+	}
+	return BlockIf(e.From)
+}
+
+// Synthetic reports whether the edge is derived from a materialised boolean expression.
+func (e Edge) Synthetic() bool { return e.synth != nil }
+
+// GuardingEdges returns all conditional edges that dominate block t, including the atomic conditions
+// implied by materialised && / || conditions.
 func GuardingEdges(t *ssa.BasicBlock) []Edge {
+	return guardingEdges(t, 0)
+}
+
+func guardingEdges(t *ssa.BasicBlock, depth int) []Edge {
 	var out []Edge
 	fn := t.Parent()
 	for _, b := range fn.Blocks {
-		if BlockIf(b) == nil {
+		ifi := BlockIf(b)
+		if ifi == nil {
 			continue
 		}
 		for i := 0; i < 2; i++ {
-			if EdgeDominates(b, i, t) {
-				out = append(out, Edge{b, i})
+			if !EdgeDominates(b, i, t) {
+				continue
+			}
+			out = append(out, Edge{From: b, Succ: i})
+			if depth < 3 {
+				out = append(out, impliedAtoms(b, ifi.Cond, i == 0, depth)...)
 			}
 		}
 	}
+	return out
+}
+
+// impliedAtoms decomposes a condition with a known truth value into the atoms it implies.
+func impliedAtoms(from *ssa.BasicBlock, cond ssa.Value, truth bool, depth int) []Edge {
+	base, neg := CondBase(cond)
+	if neg {
+		truth = !truth
+	}
+	phi, ok := base.(*ssa.Phi)
+	if !ok {
+		return nil
+	}
+	var nonConst []int
+	for i, e := range phi.Edges {
+		c, isConst := e.(*ssa.Const)
+		if !isConst {
+			nonConst = append(nonConst, i)
+			continue
+		}
+		if c.Value == nil {
+			return nil
+		}
+		// a short-circuit edge must carry the opposite of the known truth value
+		if (c.Value.String() == "true") == truth {
+			return nil
+		}
+	}
+	if len(nonConst) != 1 {
+		return nil
+	}
+	k := nonConst[0]
+	e := phi.Edges[k]
+	pred := phi.Block().Preds[k]
+	var out []Edge
+	// the operand itself has the known truth value
+	eb, eneg := CondBase(e)
+	et := truth
+	if eneg {
+		et = !et
+	}
+	if _, isPhi := eb.(*ssa.Phi); isPhi {
+		out = append(out, impliedAtoms(from, e, truth, depth+1)...)
+	} else {
+		succ := 1
+		if et {
+			succ = 0
+		}
+		out = append(out, Edge{From: from, Succ: succ, synth: &ssa.If{Cond: eb}})
+	}
+	// and the conditions under which the operand was evaluated
+	out = append(out, guardingEdges(pred, depth+1)...)
 	return out
 }
 
